@@ -10,7 +10,8 @@ BASE = {'addr_bits': 16, 'origin': 0, 'page_size': 4, 'pre_zones_op': 'ZonesA', 
 def instances(tier):
     if tier == 'quick':
         yield 'core-len4', dict(BASE, max_len=4), 'AlphaC04core', None
-        yield 'len3', dict(BASE, max_len=3), 'AlphaC04', None
+        yield 'len3', dict(BASE, max_len=3, also_no_binary=True), 'AlphaC04', None
+        yield 'predefined-blocks-clash-len2', dict(BASE, max_len=2, pre_data_op='DataClash', pre_data=[('pd1', 6, 85, 3), ('pd2', 8, 51, 2)]), 'AlphaC04core', None
         yield 'sim8', dict(BASE, max_len=8), 'AlphaC04', 'num=2000'
         # overlaps that lie entirely below / above the image window still have to be rejected
         yield 'core-len3-verbosity3', dict(BASE, max_len=3, verbose=3), 'AlphaC04core', None
@@ -21,6 +22,8 @@ def instances(tier):
         yield 'window-below-len3', dict(BASE, max_len=3, win_start=0, win_end=0, fill=7), 'AlphaC04core', None
     else:
         yield 'len5', dict(BASE, max_len=5), 'AlphaC04', None
+        yield 'len4-no-binary', dict(BASE, max_len=4, also_no_binary=True), 'AlphaC04', None
+        yield 'predefined-blocks-clash-len3', dict(BASE, max_len=3, pre_data_op='DataClash', pre_data=[('pd1', 6, 85, 3), ('pd2', 8, 51, 2)]), 'AlphaC04core', None
         yield 'sim10', dict(BASE, max_len=10), 'AlphaC04', 'num=30000'
         yield 'core-len4-verbosity3', dict(BASE, max_len=4, verbose=3), 'AlphaC04core', None
         yield 'wide-predefined-value-len4', dict(BASE, max_len=4, pre_data_op='DataWide', pre_data=[('pd1', 5, 4660, 2)]), 'AlphaC04core', None
@@ -36,7 +39,7 @@ def run(chk):
                 'zones, a zone-relative origin, zerountil and one predefined data block (6..7), in any source order up to '
                 'MaxLen lines, and checks NoSilentOverlap / OverlapRejectionJustified (adjacent check <=> pairwise '
                 'disjointness) on the specification; each scenario is assembled by the real code and compared on '
-                'accept/reject, on whether a rejection is an overlap rejection, and on the image; also with image windows (-s/-e) that leave the overlapping lines outside. '
+                'accept/reject, on whether a rejection is an overlap rejection, and on the image; also with image windows (-s/-e) that leave the overlapping lines outside, with no binary and no listing requested (-n), and with an ISA definition whose two predefined blocks share an address (nothing can be accepted). '
                 'Non-trivial = contains an origin / zone line; distinct by program text.')
     chk.assumptions = ['overlap between a muted and an unmuted line is left open (not generated here: no mute letters)',
                        'rejection reason is classified from the message substring "overlaps with bytecode" only']
